@@ -289,4 +289,46 @@ def shipped : List DEvent → List (Nat × TSample)
 def recsOf (k : Nat) (recs : List (Nat × Out)) : List Out :=
   (recs.filter (fun r => r.1 == k)).map (·.2)
 
+/-! ## before the calculator: runner result → `execute_single` → `AsyncExecutor` → `Sampler.add` → `Sample`
+
+Only what reaches the throughput calculation: `total_ops`, `total_ops_unit` and the `throughput` entry. -/
+
+/-- what one runner call produced -/
+inductive RResult where
+  /-- a 2-tuple `(weight, unit)` -/
+  | pair (w : Nat) (unit : List Char)
+  /-- a dict: the entries `"weight"`, `"unit"` (absent = `none`) and `"throughput"` (absent = `none`,
+      present with value `None` = `some none`, present with a number = `some (some v)`) -/
+  | dict (w : Option Nat) (unit : Option (List Char)) (tput : Option (Option Rat))
+  /-- anything else (e.g. `None`) -/
+  | other
+  /-- the runner raised an error that `execute_single` turns into a failed request -/
+  | failed
+
+/-- `execute_single` (`weight` defaults to 1, `unit` to "ops") followed by
+    `throughput = request_meta_data.pop("throughput", None)` in `AsyncExecutor.__call__`:
+    (total_ops, total_ops_unit, throughput) -/
+def resultOps : RResult → Nat × List Char × Option Rat
+  | .pair w u => (w, u, none)
+  | .dict w u t => (w.getD 1, u.getD ['o', 'p', 's'], match t with
+      | some v => v
+      | none => none)
+  | .other => (1, ['o', 'p', 's'], none)
+  | .failed => (0, ['o', 'p', 's'], none)
+
+/-- the throughput the runner supplied with this call, if any -/
+def supplied (r : RResult) : Option Rat := (resultOps r).2.2
+
+/-- the time stamps and the sample type the executor attaches -/
+structure Timing where
+  abs : Rat
+  rel : Rat
+  period : Rat
+  normal : Bool
+
+/-- the `Sample` that `Sampler.add` enqueues -/
+def sampleOf (tm : Timing) (r : RResult) : TSample :=
+  { abs := tm.abs, rel := tm.rel, period := tm.period, ops := (resultOps r).1, unit := (resultOps r).2.1,
+    normal := tm.normal, tput := supplied r }
+
 end Throughput
